@@ -685,7 +685,7 @@ func acceptedID(rel string, unc bool) (string, bool) {
 // ---------- driver ----------
 
 func runC16(a vh.Args, o *vh.Oracle, r *vh.Result) error {
-	r.Rule = "case = (random store directory: 2-6 chunk ids with every (id, format) slot absent/valid/corrupt/foreign/empty/other-format-bytes/garbage, plus up to 6 extras among junk files, temp files at the root and in chunk directories, a temp-named directory, chunk names in a wrong/nested/root directory, upper-case names, empty directories, chunks outside the universe, chunk-named directories, near-miss names; format; keep-set mode empty/all/subset/subset+absent/absent-only) for prune, (tree; format; repair; n workers) for verify; non-trivial = prune with an unreferenced own-format chunk present or >2 extra features, verify with at least one invalid own-format chunk; distinct by all of these"
+	r.Rule = "case = (random store directory: 2-6 chunk ids with every (id, format) slot absent/valid/corrupt/foreign/empty/other-format-bytes/garbage, plus up to 6 extras among junk files, temp files at the root and in chunk directories, a temp-named directory, chunk names in a wrong/nested/root directory, upper-case names, empty directories, chunks outside the universe, chunk-named directories, near-miss names; format; keep-set mode empty/all/subset/subset+absent/absent-only) for prune, (tree; format; repair; n workers) for verify, plus verify-stress = repeated Verify passes with 8-16 workers over 1200-6000 chunks of which half are damaged, messages compared exactly with the damaged set; non-trivial = prune with an unreferenced own-format chunk present or >2 extra features, verify with at least one invalid own-format chunk; distinct by all of these"
 	desync.Digest = desync.SHA256{}
 	if a.Replay != "" {
 		var c c16Case
@@ -701,6 +701,8 @@ func runC16(a vh.Args, o *vh.Oracle, r *vh.Result) error {
 			return c16S3(a, o, r, &c)
 		case "sftpprune":
 			return c16SFTP(a, o, r, &c)
+		case "verify-stress":
+			return c16Stress(a, r, &c)
 		case "sftp-temp":
 			return c16SFTPTemp(a, r, c.Unc)
 		}
@@ -742,5 +744,8 @@ func runC16(a vh.Args, o *vh.Oracle, r *vh.Result) error {
 	if err := c16S3All(a, o, r, rng); err != nil {
 		return err
 	}
-	return c16SFTPAll(a, o, r, rng)
+	if err := c16SFTPAll(a, o, r, rng); err != nil {
+		return err
+	}
+	return c16StressAll(a, r, rng)
 }
